@@ -140,6 +140,13 @@ func runC13(o *opts) (*summary, error) {
 	for _, d := range [][3]int{{1, 1, 2}, {1, 12, 31}, {9999, 12, 31}, {9999, 1, 1}, {2000, 2, 29}, {1970, 1, 1}, {2038, 1, 19}, {1900, 3, 1}} {
 		add(d, "boundary")
 	}
+	// a dense window across a year end (and a leap day): every value is handled in ONE process, so whatever the library
+	// remembers about one date (a cache keyed by a lossy digest of year, month, day ...) meets its neighbours
+	for t := time.Date(2023, 10, 15, 12, 0, 0, 0, time.UTC); t.Before(time.Date(2024, 3, 16, 0, 0, 0, 0, time.UTC)); t = t.AddDate(0, 0, 1) {
+		if thorough || t.Day()%3 == 1 || t.Day() > 27 {
+			add([3]int{t.Year(), int(t.Month()), t.Day()}, "dense")
+		}
+	}
 	n := 200
 	if x := o.extraArg("n"); x != "" {
 		fmt.Sscanf(x, "%d", &n)
